@@ -54,12 +54,13 @@ def _lab(label: str) -> str:
 
 class Watchdog:
     """Detects "this borrower is blocked forever" on an in-process fake worker without guessing with a timeout:
-    the client thread and the worker thread both sit in a blocking pipe read and both pipes are empty (three polls
-    in a row).  Nobody can make progress then; the worker's output pipe is closed so that the client's read ends
-    with an error -- which is what the borrower observes instead of its answer.  `hard` seconds bounds everything."""
+    the client thread and the worker thread are both *inside the read(2) system call* on their (empty) pipes --
+    /proc/self/task/<tid>/syscall says so -- on five consecutive polls.  Nobody can make progress then; the worker's
+    output pipe is closed so that the client's read ends with an error, which is what the borrower observes instead of
+    its answer.  `hard` seconds bounds everything."""
 
-    def __init__(self, tr, client_ident: int, hard: float = 20.0) -> None:
-        self.tr, self.client_ident, self.hard = tr, client_ident, hard
+    def __init__(self, tr, client_native_id: int, hard: float = 30.0) -> None:
+        self.tr, self.client_nid, self.hard = tr, client_native_id, hard
         self.fired = False
         self._stop = _real_threading.Event()
         self._th = _real_threading.Thread(target=self._run, daemon=True, name="c32-watchdog")
@@ -73,9 +74,14 @@ class Watchdog:
         self._th.join(2)
 
     @staticmethod
-    def _blocked_in_read(ident) -> bool:
-        f = sys._current_frames().get(ident)
-        return f is not None and f.f_code.co_name == "readinto"
+    def _in_read(native_id, fobj) -> bool:
+        """Is that thread sleeping in read(fd) on exactly this stream's descriptor?"""
+        try:
+            fd = fobj.fileno()
+            parts = open(f"/proc/self/task/{native_id}/syscall").read().split()
+            return parts[0] == "0" and int(parts[1], 16) == fd          # x86-64: syscall 0 = read
+        except Exception:  # noqa: BLE001
+            return False
 
     @staticmethod
     def _empty(fobj) -> bool:
@@ -88,11 +94,11 @@ class Watchdog:
         hits, t0 = 0, _real_time.time()
         while not self._stop.wait(0.01):
             tr = self.tr
-            stuck = (tr.thread.is_alive() and self._blocked_in_read(tr.thread.ident)
-                     and self._blocked_in_read(self.client_ident)
+            stuck = (tr.thread.is_alive() and self._in_read(tr.thread.native_id, tr.server_side.reader)
+                     and self._in_read(self.client_nid, tr.client.reader)
                      and self._empty(tr.client.reader) and self._empty(tr.server_side.reader))
             hits = hits + 1 if stuck else 0
-            if hits >= 3 or _real_time.time() - t0 > self.hard:
+            if hits >= 5 or _real_time.time() - t0 > self.hard:
                 self.fired = True
                 tr.break_pipe()
                 return
@@ -488,7 +494,7 @@ class PoolWorld:
     def _use(self, b: int, svc, tr, arm) -> None:
         kind, name, pos = self.kind[b - 1]
         tag = next(self.tags)
-        with Watchdog(tr, _real_threading.get_ident()) as wdg:
+        with Watchdog(tr, _real_threading.get_native_id()) as wdg:
             try:
                 ok = svc.echo(x=tag) == tag
             except Exception:  # noqa: BLE001
@@ -518,23 +524,26 @@ class PoolWorld:
     def _ev(self, a: str, k: int = 0, kind: str = "", lab: str = "") -> dict:
         obs = self.observe()
         self._mon("Idle", n=len(obs["idle"]))
-        ev = {"a": a, "k": k, "kind": kind, "lab": lab, **obs}
+        ev = {"a": a, "k": k, "kind": kind, "lab": lab, "script": "", "pos": 0, **obs}
         self.trace.append(ev)
         return ev
 
     # ------------------------------------------------------------------ operations
-    def step_b(self, b: int, kind: str | None = None) -> dict:
+    def step_b(self, b: int, kind: str | None = None, script: str | None = None, pos: int | None = None) -> dict:
         name = f"b{b}"
         used = ""
         if self.sched.label(name) == "use":
             k = kind or "clean"
-            fn, ps = (self.rng.choice(SCRIPTS[k]) if self.rng else SCRIPTS[k][0])
-            pos = self.rng.choice(ps) if self.rng else ps[0]
-            self.kind[b - 1] = (k, fn.__name__, pos)
-            tr = self.workers[self.held[b - 1] - 1] if self.held[b - 1] else None
+            if script is None:
+                fn, ps = (self.rng.choice(SCRIPTS[k]) if self.rng else SCRIPTS[k][0])
+                script, pos = fn.__name__, (self.rng.choice(ps) if self.rng else ps[0])
+            self.kind[b - 1] = (k, script, pos)
             used = k
         self.sched.step(name)
-        return self._ev("B", b, used, _lab(self.sched.label(name)))
+        ev = self._ev("B", b, used, _lab(self.sched.label(name)))
+        if used:
+            ev["script"], ev["pos"] = self.kind[b - 1][1], self.kind[b - 1][2]
+        return ev
 
     def step_r(self) -> dict:
         self.sched.step("reaper")
